@@ -21,6 +21,9 @@ def inst(q, **kw):
     return mk(f"inst:{q}", **kw)
 
 
+from .program import FuncInfo
+
+
 def dsl_bindings(prog: Program):
     """[(class, method FuncInfo, callables function name, call node)] for every classmethod
     whose body is `return cls(call_funcs.F, ...)`."""
@@ -52,9 +55,14 @@ def cast_tables(prog: Program):
         raise AnalysisError("casting tables are not dict displays")
     dtype = {}
     for k, v in zip(d.keys, d.values):
-        if not (isinstance(k, ast.Constant) and isinstance(v, ast.Name)):
-            raise AnalysisError("CAST_DTYPE_LOOKUP entry is not `str: type`")
-        dtype[k.value] = v.id
+        if not isinstance(v, ast.Name):
+            raise AnalysisError("CAST_DTYPE_LOOKUP value is not a type name")
+        if isinstance(k, ast.Constant):
+            dtype[k.value] = v.id
+        elif isinstance(k, ast.Name):
+            dtype[("type", k.id)] = v.id     # a type object used as its own name (judged by R-CASTINV / R-JSONTYPE)
+        else:
+            raise AnalysisError("CAST_DTYPE_LOOKUP key is neither a string nor a type name")
     lookup = {}
     for k, v in zip(l.keys, l.values):
         if not (isinstance(k, ast.Tuple) and len(k.elts) == 2 and all(isinstance(e, ast.Name) for e in k.elts) and isinstance(v, ast.Name)):
@@ -115,6 +123,6 @@ def build_hints(prog: Program):
     }
     for (cq, fld) in hints:
         c = prog.cls(cq)
-        if fld not in c.all_fields():
+        if fld not in c.all_fields() and c.lookup(fld)[1] is None:
             raise AnalysisError(f"hinted field {cq}.{fld} is no longer assigned anywhere in the class")
     return hints
